@@ -51,6 +51,8 @@ def documented_heuristics():
 
 HEURISTICS = documented_heuristics()
 INTERACTION_NAMES = ['a', 'b', 'c', 'a AND b', 'b AND c', 'a AND c', 'a AND b AND c', 'c AND a']
+# names that contain the label's name (label_prev, xlabel, ...): the label is a column NAME, not a substring
+LABELISH_NAMES = ['label_prev', 'xlabel', 'label2', 'my label', 'Label', 'labe', 'abel', 'label-1']
 POOL = ['', 'a', 'b', 'ab', 'abc', 'ba', '1', '11', '2', '10', '007', 'é', 'é', ' ', 'Z', 'z', '0', '-1', 'NaN', 'x,y',
         '{}', '日本', 'a b']
 
@@ -76,7 +78,8 @@ def frame_case(draw, max_rows=300):
     if draw(st.integers(0, 3)) == 0:
         # column names as the tool itself builds them for interaction features ("a AND b"): name-based bookkeeping must not
         # confuse the pairs ('a AND b', 'c') and ('a', 'b AND c')
-        case['names'] = draw(st.permutations(INTERACTION_NAMES))[:ncols]
+        pool = INTERACTION_NAMES if draw(st.booleans()) else LABELISH_NAMES
+        case['names'] = draw(st.permutations(pool))[:ncols]
         case['pairwise'] = draw(st.sampled_from([True, True, False]))
     return case
 
@@ -252,7 +255,35 @@ def oracle_huge(case, rec):
                             kind='C05/huge-batch')
 
 
-ORACLES = {'C05/score': oracle, 'C05/alias': oracle, 'C05/huge-batch': oracle_huge}
+@st.composite
+def ami_highcard_case(draw):
+    """AMI on two columns whose cardinality product exceeds 10^6 (e.g. user x item ids in a batch of a few thousand rows)."""
+    return {'amihc': {'n': draw(st.integers(3200, 4200)), 'ka': draw(st.integers(1300, 1700)), 'kb': draw(st.integers(1000, 1300)),
+                      'seed': draw(st.integers(0, 2**32 - 1))}}
+
+
+def oracle_ami_highcard(case, rec):
+    from sklearn.metrics import adjusted_mutual_info_score
+    g = case['amihc']
+    rng = np.random.Generator(np.random.PCG64(int(g['seed'])))
+    n = int(g['n'])
+    a = rng.integers(0, int(g['ka']), size=n)
+    b = (a * 7 + rng.integers(0, 40, size=n)) % int(g['kb'])
+    df = pd.DataFrame({'user': [f'u{v}' for v in a], 'label': [f'i{v}' for v in b]})
+    args = stubs.make_args(heuristic='AMI', target_ranking_only='True')
+    stubs.reset_globals()
+    out = mixed_rank_graph(df, args, stubs.InlinePool(), stubs.PBar()).triplet_scores
+    ca, cb = codes_of(df['user'].tolist()), codes_of(df['label'].tolist())
+    exp = float(adjusted_mutual_info_score(ca, cb))
+    rec.nt(True, key=case)
+    rec.cls('ami-cardinality-product>10^6')
+    for x, y, s in out:
+        if x != y and abs(float(s) - exp) > 1e-9:
+            raise Violation(f'heuristic AMI: pair ({x}, {y}) with cardinalities {len(set(ca))} x {len(set(cb))} scored {float(s)!r}, '
+                            f'adjusted_mutual_info_score gives {exp!r}', kind='C05/ami-highcard')
+
+
+ORACLES = {'C05/score': oracle, 'C05/alias': oracle, 'C05/huge-batch': oracle_huge, 'C05/ami-highcard': oracle_ami_highcard}
 
 
 def run(ctx):
@@ -262,6 +293,7 @@ def run(ctx):
         Clause('C05/score', lambda: frame_case(max_rows=max_rows), oracle, quick=2400, thorough=120000, quick_shards=8),
         Clause('C05/alias', alias_case, oracle, quick=24, thorough=1800, quick_shards=4, thorough_shards=8),
         Clause('C05/huge-batch', huge_case, oracle_huge, quick=2, thorough=16, quick_shards=2, thorough_shards=8),
+        Clause('C05/ami-highcard', ami_highcard_case, oracle_ami_highcard, quick=1, thorough=12, quick_shards=1, thorough_shards=6),
     ]
     drive(ctx, clauses)
     missing = [h for h in HEURISTICS if ctx.stats.classes.get('h=' + h, 0) == 0 and not ctx.violations]
